@@ -74,6 +74,10 @@ pub struct CoCase {
     pub schedule: Vec<Action>,
     pub drain: Vec<u8>,
     pub no_drain: bool,
+    /// the source never ends (a long range, a counter); only generated behind a
+    /// `take(k)` with k <= the number of closure scripts. Its size hint is the
+    /// honest (usize::MAX, Some(usize::MAX)).
+    pub endless: bool,
 }
 
 impl CoCase {
@@ -113,10 +117,11 @@ impl CoCase {
             Step::Panic => "PANIC".into(),
         };
         let src = match self.source {
+            SourceKind::Co if self.endless => "stream<an item on every poll, for ever; size_hint (usize::MAX, Some(usize::MAX))>.co()".to_string(),
             SourceKind::Co => format!(
                 "stream<{}{}>.co()",
                 self.src_script.iter().map(step).collect::<Vec<_>>().join(" "),
-                match self.src_hint { 1 => " exact-size_hint", 2 => " inexact-size_hint", _ => "" }
+                match self.src_hint { 1 => " exact-size_hint", 2 => " inexact-size_hint", 3 => " size_hint-with-huge-upper-bound", _ => "" }
             ),
             SourceKind::Vec => format!("vec[{}].into_co_stream()", self.n_items()),
         };
@@ -389,7 +394,7 @@ fn build_case(case: &CoCase, top: NodeId) -> BoxF {
     match case.source {
         SourceKind::Co => {
             let src = world::with(|w| {
-                let id = w.new_node(Some(top), 0, NodeKind::Leaf { flavor: Flavor::S, script: case.src_script.clone(), pos: 0, always: false, hint: case.src_hint, dropwake: false });
+                let id = w.new_node(Some(top), 0, NodeKind::Leaf { flavor: Flavor::S, script: case.src_script.clone(), pos: 0, always: case.endless, hint: if case.endless { 4 } else { case.src_hint }, dropwake: false });
                 w.co.src = Some(id);
                 id
             });
@@ -1063,7 +1068,7 @@ pub fn gen_co_case(bytes: &[u8], cp: &CoProfile) -> CoCase {
             }
         }
     }
-    let src_hint = if source == SourceKind::Co { c.weighted(&[(0u8, 140), (1, 60), (2, 56)]) } else { 0 };
+    let src_hint = if source == SourceKind::Co { c.weighted(&[(0u8, 130), (1, 56), (2, 50), (3, 20)]) } else { 0 };
     let mut sp = p.clone();
     sp.p_drop = cp.p_drop;
     let mut schedule = gen_schedule(&mut c, &sp);
@@ -1074,7 +1079,13 @@ pub fn gen_co_case(bytes: &[u8], cp: &CoProfile) -> CoCase {
     }
     let no_drain = c.coin(p.p_nodrain);
     let drain: Vec<u8> = (0..32).map(|_| c.byte()).collect();
-    CoCase { source, src_script, src_hint, stack, terminal, work, schedule, drain, no_drain }
+    // a source that never ends, behind a take(k) that the closure scripts cover
+    let take_min = stack.iter().filter_map(|a| if let Adapter::Take(k) = a { Some(*k) } else { None }).min();
+    let endless = source == SourceKind::Co && !mass && n > 0 && matches!(take_min, Some(k) if k <= n) && !src_script.contains(&Step::Panic) && c.coin(40);
+    if endless {
+        src_script = vec![Step::Yield(true); n];
+    }
+    CoCase { source, src_script, src_hint, stack, terminal, work, schedule, drain, no_drain, endless }
 }
 
 // ------------------------------------------------------------------ engine
@@ -1280,7 +1291,7 @@ impl CoEngine {
             .iter()
             .filter(|v| matches!(v.oracle, Oracle::L | Oracle::D | Oracle::DV | Oracle::WakerPanic | Oracle::Panic(_)))
             .filter(|v| !(case.terminal == Terminal::CollectVec && matches!(v.oracle, Oracle::L | Oracle::D | Oracle::DV)))
-            .map(|v| world::Violation { oracle: tor, msg: format!("[{:?}] {}", v.oracle, v.msg), fam: None })
+            .map(|v| world::Violation { oracle: tor, msg: format!("[{:?}] {}", v.oracle, v.msg), fam: None, at: v.at })
             .collect();
         violations.extend(extra);
         let trace_lines = std::mem::take(&mut out.run.world.trace);
